@@ -158,6 +158,18 @@ Theorem C14_sync_inv_refuted_before_fix :
 Proof. exact sync_inv_refuted_before_fix. Qed.
 Print Assumptions C14_sync_inv_refuted_before_fix.
 
+(* the same defect reached through a delimited child over a conforming, full-length source *)
+Theorem C14_sync_child_inv_refuted_before_fix :
+  exists cs data d n,
+    0 < cs /\ 1 <= length d /\ length d <= cs /\
+    let parent := init source (length data) {| sdata := data; sched := [] |} in
+    let child := init (state source) (child_max source parent) parent in
+    Inv source parent /\ Inv (state source) child /\
+    ~ Inv (state source)
+        (snd (read_ (state source) (child_rd source src_read cs false d) cs false child n)).
+Proof. exact sync_child_inv_refuted_before_fix. Qed.
+Print Assumptions C14_sync_child_inv_refuted_before_fix.
+
 (* ---------------------------------------------------------------- non-vacuity *)
 Example C14_async_witness_after_fix :
   async_history 4 true 20 [b_hello] witness_hist = spec_history 4 5 b_hello witness_hist.
@@ -172,3 +184,12 @@ Example C14_sync_example :
      = [RBytes [97; 13]; RBytes [97; 13; 10]; RBytes [45; 45; 98]; RBytes []; RBytes []; RBytes [];
         RBytes [99]]%N.
 Proof. vm_compute. split; reflexivity. Qed.
+
+Example C14_sync_child_witness_after_fix :
+  let parent := init source 7 {| sdata := b_abdash; sched := [] |} in
+  let child := init (state source) (child_max source parent) parent in
+  Inv (state source)
+      (snd (read_ (state source) (child_rd source src_read 4 true b_dash) 4 true child 3))
+  /\ fst (read_ (state source) (child_rd source src_read 4 true b_dash) 4 true child 3)
+     = [97; 98]%N.
+Proof. exact sync_child_witness_after_fix. Qed.
